@@ -87,7 +87,7 @@ func init() {
 					return false
 				}
 				isGivenLen := func(x ast.Expr) bool {
-					cl := fi.isCall(x, "go/types.Tuple.Len")
+					cl := fi.isCall(fi.deref(x), "go/types.Tuple.Len") // possibly hoisted into a local
 					return cl != nil && fi.varOf(recvOf(cl)) != nil && fi.isParam(fi.varOf(recvOf(cl)))
 				}
 				isLenCalls := func(x ast.Expr) bool {
